@@ -538,10 +538,15 @@ func c20Run(c *vk.Case) {
 					c.Violate("panic:restart-after-failed-start", merge(detail, map[string]any{"panic": fmt.Sprint(rc)}), "Restart after a failed start-up panicked: %v", rc)
 				}
 			}()
-			if err := mgr.Restart(); err == nil {
-				c.Violate("unknown-source-not-reported-on-restart:"+unknownIn, detail, "restart with an unknown source reference reported no error")
+			// (twice: the restart after a restart that failed to load is a different situation from the restart
+			// after a failed start-up — the manager has to be restartable again each time)
+			for k := 0; k < 2; k++ {
+				if err := mgr.Restart(); err == nil {
+					c.Violate("unknown-source-not-reported-on-restart:"+unknownIn, detail, "restart with an unknown source reference reported no error")
+				}
+				c.Obs("restarts", 1)
+				c.Obs("restarts_after_failed_load", 1)
 			}
-			c.Obs("restarts", 1)
 		}()
 		return
 	}
